@@ -557,7 +557,7 @@ impl Check for C01 {
         let planes = plane_list().len() as u64;
         match tier {
             Tier::Quick => planes + 6_000,
-            Tier::Thorough => 4 * planes + 3_000_000,
+            Tier::Thorough => 4 * planes + 20_000_000,
         }
     }
     fn generate(&self, rng: &mut Rng, tier: Tier, idx: u64) -> Scn {
